@@ -6,6 +6,7 @@ import (
 	"bytes"
 	"context"
 	"errors"
+	"net"
 	"net/netip"
 	"os"
 	"sync/atomic"
@@ -22,6 +23,7 @@ import (
 
 // sessionUplinkMmsg is used for passing information about relay uplink to the relay goroutine.
 type sessionUplinkMmsg struct {
+	state          *atomic.Pointer[net.UDPConn]
 	csid           uint64
 	clientName     string
 	natConn        *conn.MmsgWConn
@@ -378,6 +380,7 @@ func (s *UDPSessionRelay) recvFromServerConnRecvmmsg(ctx context.Context, lnc *u
 
 					s.wg.Go(func() {
 						s.relayServerConnToNatConnSendmmsg(ctx, sessionUplinkMmsg{
+							state:          &entry.state,
 							csid:           csid,
 							clientName:     clientInfo.Name,
 							natConn:        natConn.NewWConn(),
@@ -563,6 +566,12 @@ main:
 				zap.Duration("natTimeout", uplink.natTimeout),
 				zap.Error(err),
 			)
+		}
+		// Stop swaps the session state before forcing the read deadline into the past.
+		// If that happened while we were sending, do not let the re-arm above keep the downlink
+		// goroutine, and therefore Stop, waiting for the NAT timeout.
+		if uplink.state.Load() != uplink.natConn.UDPConn {
+			_ = uplink.natConn.SetReadDeadline(conn.ALongTimeAgo)
 		}
 		verifhook.At("relay.uplink.afterRearm", s, uplink.csid)
 
